@@ -10,6 +10,7 @@ import (
 	"sort"
 	"strings"
 	"sync"
+	"time"
 
 	pb "github.com/ipfs/boxo/ipld/unixfs/pb"
 	"github.com/ipfs/go-cid"
@@ -323,6 +324,20 @@ func c17Scenarios(quick bool) []c17Scenario {
 			bodies: func(i *c17Inst, n datamodel.Node) []func() string {
 				return []func() string{iterBody(n), lookupBody(n, i.names[0]), lengthBody(n)}
 			}},
+		// the preloading reification itself (a walk of the whole directory) next
+		// to a lookup, with a child shard unavailable: whatever the library runs
+		// side by side inside that walk, the outcome is the one a walk alone has
+		{Name: "S15-unavailable-child-shard-preload-and-lookup", Threads: 2, Bounds: b2, setup: c17DirMissing,
+			bodies: func(i *c17Inst, n datamodel.Node) []func() string {
+				preload := func() string {
+					p, err := openVia("unixfs-preload", i.ls, i.rootN)
+					if err != nil {
+						return "preload:error"
+					}
+					return fmt.Sprintf("preload:ok len=%d", p.Length())
+				}
+				return []func() string{preload, lookupBody(n, i.names[1])}
+			}},
 		{Name: "S6-preloaded-file-two-readers", Threads: 2, Bounds: b2, setup: func() *c17Inst { i := c17File(); i.via = "unixfs-preload"; return i },
 			bodies: func(i *c17Inst, n datamodel.Node) []func() string {
 				return []func() string{readAllBody(n, 3), seekEndBody(n)}
@@ -475,6 +490,16 @@ func runC17(r *core.Run) {
 			r.Set("uninstrumented_sites", rep["uninstrumented_sites"])
 		}
 	}
+	// budget per (scenario, bound) exploration: on the pinned tree the largest
+	// takes a few seconds (quick) / two minutes (thorough); a change that makes
+	// the library start goroutines of its own can multiply the schedule space
+	// beyond any bound, and the check then reports what it covered
+	perExploration := 45 * time.Second
+	overall := time.Now().Add(6 * time.Minute)
+	if !r.Quick() {
+		perExploration = 15 * time.Minute
+		overall = time.Now().Add(75 * time.Minute)
+	}
 	var stats []map[string]any
 	for _, sc := range c17Scenarios(r.Quick()) {
 		inst := sc.setup()
@@ -488,7 +513,7 @@ func runC17(r *core.Run) {
 			fmt.Fprintf(os.Stderr, "BREADCRUMB C17 scenario %s preemption bound %d\n", sc.Name, bound)
 			restarts := 0
 		again:
-			ex := &xplore.Explorer{Bound: bound, Horizon: 20000, Replay: 2, MaxExecs: 600000, OnDiverge: func(ch []int, a, b string) {
+			ex := &xplore.Explorer{Bound: bound, Horizon: 20000, Replay: 2, MaxExecs: 600000, Deadline: earlier(time.Now().Add(perExploration), overall), OnDiverge: func(ch []int, a, b string) {
 				r.InternalError(fmt.Sprintf("nondeterministic replay %s %v: %q vs %q", sc.Name, ch, a, b))
 			}}
 			outcomes := map[string]bool{}
@@ -529,7 +554,7 @@ func runC17(r *core.Run) {
 				goto again // shared-site set grew: explore again with the new scheduling points
 			}
 			if ex.Stats.Capped {
-				r.Cap(fmt.Sprintf("execution cap hit: %s bound %d", sc.Name, bound))
+				r.Cap(fmt.Sprintf("execution / time budget hit: %s bound %d after %d executions", sc.Name, bound, ex.Stats.Executions))
 			}
 			if ex.Stats.Truncated > 0 {
 				r.Cap(fmt.Sprintf("%d truncated executions: %s bound %d", ex.Stats.Truncated, sc.Name, bound))
@@ -619,4 +644,11 @@ func runC17Race(r *core.Run) {
 	r.States.Add(1)
 	r.Transitions.Add(1)
 	r.Sample("free-running repetitions of the C17 scenario bodies")
+}
+
+func earlier(a, b time.Time) time.Time {
+	if a.Before(b) {
+		return a
+	}
+	return b
 }
